@@ -70,12 +70,17 @@ Print Assumptions C20_errors_div_zero_assign.
    is not proved (missing: atoi = lit_value on the literal grammar, C20_atoi, and the lexer lemma that an
    integer literal parses to itself; both sides are compared by the code and spec legs on every run instead).
    What is proved is the operator layer: wherever bash's result is defined (no signed overflow, shift count
-   0..63) every binary operator except `**` and every assignment operator of the Go code, with its int64
+   0..63) every binary operator (incl. `**`: intPow = wrapped power) and every assignment operator of the Go code, with its int64
    wrap-around, gives bash's value or bash's error. *)
 Theorem C20_eval_matches_operators_partial : forall o x y,
-  o <> Pow -> bash_bin o x y <> BU -> bin_arit o x y = to_res (bash_bin o x y).
-Proof. exact bin_matches. Qed.
+  bash_bin o x y <> BU -> bin_arit o x y = to_res (bash_bin o x y).
+Proof. exact bin_matches_all. Qed.
 Print Assumptions C20_eval_matches_operators_partial.
+
+(* intPow (square-and-multiply with wrapping products) is the wrapped mathematical power *)
+Theorem C20_int_pow : forall a b, (0 <= b)%Z -> int_pow a b = wrap64 (a ^ b).
+Proof. exact int_pow_spec. Qed.
+Print Assumptions C20_int_pow.
 
 Theorem C20_eval_matches_assign_partial : forall o v a,
   is_assign o = true -> bash_assgn_op o v a <> BU -> assgn_op o v a = to_res (bash_assgn_op o v a).
